@@ -5,18 +5,19 @@ import subprocess, sys, os
 prop, name = sys.argv[1:3]
 rest = sys.argv[3:]
 assert len(rest) % 3 == 0
-subprocess.run(["git", "-C", "/repo", "diff", "--quiet"], check=True)
+REPO = os.environ.get("MKMUT_REPO", "/repo")
+subprocess.run(["git", "-C", REPO, "diff", "--quiet"], check=True)
 try:
     for i in range(0, len(rest), 3):
         f, old, new = rest[i:i+3]
-        p = os.path.join("/repo", f)
+        p = os.path.join(REPO, f)
         s = open(p).read()
         assert s.count(old) >= 1, f"pattern not found in {f}: {old!r}"
         s = s.replace(old, new, 1)
         open(p, "w").write(s)
-    d = subprocess.run(["git", "-C", "/repo", "diff"], capture_output=True, text=True, check=True).stdout
+    d = subprocess.run(["git", "-C", REPO, "diff"], capture_output=True, text=True, check=True).stdout
     os.makedirs(f"/verif/mutations/{prop}", exist_ok=True)
     open(f"/verif/mutations/{prop}/{name}.diff", "w").write(d)
     print("wrote", f"/verif/mutations/{prop}/{name}.diff", len(d.splitlines()), "lines")
 finally:
-    subprocess.run(["git", "-C", "/repo", "checkout", "--", "."], check=True)
+    subprocess.run(["git", "-C", REPO, "checkout", "--", "."], check=True)
